@@ -11,11 +11,12 @@ import (
 )
 
 func init() {
-	Register(&PropDef{ID: "C01", Run: func(c *Ctx) { runSeq(c, seqC01) }, Config: seqConfig})
-	Register(&PropDef{ID: "C03", Run: func(c *Ctx) { runSeq(c, seqC03) }, Config: seqConfig})
+	Register(&PropDef{ID: "C01", Run: seqOrLin(seqC01, linPubSub), Config: seqOrLinConfig})
+	Register(&PropDef{ID: "C03", Run: seqOrLin(seqC03, linRPC), Config: seqOrLinConfig})
 	Register(&PropDef{ID: "C12", Run: func(c *Ctx) { runSeq(c, seqC12) }, Config: seqConfig})
 	Register(&PropDef{ID: "C05", Run: func(c *Ctx) { runSeq(c, seqC05) }, Config: seqConfig})
-	Register(&PropDef{ID: "C18", Run: func(c *Ctx) { runSeq(c, seqC18) }, Config: seqConfig})
+	Register(&PropDef{ID: "C18", Run: seqOrLin(seqC18, linMeta), Config: seqOrLinConfig})
+	Register(&PropDef{ID: "LIN", Run: func(c *Ctx) { runLin(c, linFlavour(c.Gen.Intn(3))) }})
 	Register(&PropDef{ID: "C10", Run: func(c *Ctx) { runSeq(c, seqC10) }, Config: seqConfig})
 	Register(&PropDef{ID: "C13", Run: func(c *Ctx) { runSeq(c, seqC13) }, Config: seqConfig})
 	Register(&PropDef{ID: "C15b", Run: func(c *Ctx) { runSeq(c, seqC15) }, Config: seqConfig})
@@ -28,6 +29,40 @@ func seqConfig(spec Spec, g *Rand) simrt.Config {
 	cfg := simrt.Config{MaxSteps: 400000, Strategy: simrt.Strategy(sg.Intn(4)), ShuffleMaps: sg.Intn(4) != 0}
 	if spec.Strategy >= 0 {
 		cfg.Strategy = simrt.Strategy(spec.Strategy)
+	}
+	return cfg
+}
+
+// linShare: one run in linShare is a concurrent run checked for linearizability (p_lin.go).
+const linShare = 4
+
+func isLinRun(genSeed uint64) bool { return NewRand(genSeed^0x11a).Intn(linShare) == 0 }
+
+func seqOrLin(fl seqFlavour, lf linFlavour) PropFunc {
+	return func(c *Ctx) {
+		if isLinRun(c.Spec.GenSeed) {
+			runLin(c, lf)
+			return
+		}
+		runSeq(c, fl)
+	}
+}
+
+func seqOrLinConfig(spec Spec, g *Rand) simrt.Config {
+	if !isLinRun(spec.GenSeed) {
+		return seqConfig(spec, g)
+	}
+	sg := NewRand(spec.SchedSeed)
+	cfg := simrt.Config{MaxSteps: 200000, Strategy: simrt.Strategy(sg.Intn(4)), ShuffleMaps: sg.Intn(4) != 0}
+	if spec.Strategy >= 0 {
+		cfg.Strategy = simrt.Strategy(spec.Strategy)
+	}
+	if sg.Intn(5) == 0 {
+		cfg.DelayPermille = 5 + sg.Intn(40)
+	}
+	if sg.Intn(5) < 2 {
+		cfg.FocusMod = 60 + sg.Intn(240)
+		cfg.FocusBudget = 1 + sg.Intn(3)
 	}
 	return cfg
 }
